@@ -147,21 +147,24 @@ def run_map(
     )
     if progress is not None:
         progress.display()
-    with _maybe_executor(executor, parallel) as ex:
-        for gen in pipeline.topological_generations.function_lists:
-            _run_and_process_generation(
-                generation=gen,
-                run_info=run_info,
-                store=store,
-                outputs=outputs,
-                fixed_indices=fixed_indices,
-                executor=ex,
-                progress=progress,
-                cache=pipeline.cache,
-            )
+    try:
+        with _maybe_executor(executor, parallel) as ex:
+            for gen in pipeline.topological_generations.function_lists:
+                _run_and_process_generation(
+                    generation=gen,
+                    run_info=run_info,
+                    store=store,
+                    outputs=outputs,
+                    fixed_indices=fixed_indices,
+                    executor=ex,
+                    progress=progress,
+                    cache=pipeline.cache,
+                )
+    finally:
+        # Also when a function raised: results computed so far stay loadable from the run folder
+        _maybe_persist_memory(store, persist_memory)
     if progress is not None:  # final update
         progress.update_progress(force=True)
-    _maybe_persist_memory(store, persist_memory)
     return outputs
 
 
@@ -290,21 +293,24 @@ def run_map_async(
     multi_run_manager = maybe_multi_run_manager(executor_dict)
 
     async def _run_pipeline() -> OrderedDict[str, Result]:
-        with _maybe_executor(executor_dict, parallel=True) as ex:
-            assert ex is not None
-            for gen in pipeline.topological_generations.function_lists:
-                await _run_and_process_generation_async(
-                    generation=gen,
-                    run_info=run_info,
-                    store=store,
-                    outputs=outputs,
-                    fixed_indices=fixed_indices,
-                    executor=ex,
-                    progress=progress,
-                    cache=pipeline.cache,
-                    multi_run_manager=multi_run_manager,
-                )
-        _maybe_persist_memory(store, persist_memory)
+        try:
+            with _maybe_executor(executor_dict, parallel=True) as ex:
+                assert ex is not None
+                for gen in pipeline.topological_generations.function_lists:
+                    await _run_and_process_generation_async(
+                        generation=gen,
+                        run_info=run_info,
+                        store=store,
+                        outputs=outputs,
+                        fixed_indices=fixed_indices,
+                        executor=ex,
+                        progress=progress,
+                        cache=pipeline.cache,
+                        multi_run_manager=multi_run_manager,
+                    )
+        finally:
+            # Also when a function raised: results computed so far stay loadable from the run folder
+            _maybe_persist_memory(store, persist_memory)
         return outputs
 
     task = asyncio.create_task(_run_pipeline())
